@@ -37,7 +37,7 @@ def w(o, a, src=None): return ('w', o, a, src)
 LOCKERS = [
     P('fu_rmw_x', ('getfu', 1, ''), r(1, 'x'), w(1, 'x', 'x')),
     P('fu_ry_wx', ('getfu', 1, ''), r(1, 'y'), w(1, 'x')),
-    P('fu_r_load_r', ('getfu', 1, ''), r(1, 'x'), ('load', 1), r(1, 'x'), r(1, 'y')),
+    P('fu_r_refetch_r', ('getfu', 1, ''), r(1, 'x'), ('refetch', 1), r(1, 'x'), r(1, 'y')),
     P('fu_flush_rmw', ('getfu', 1, ''), r(1, 'x'), w(1, 'x', 'x'), ('flush',), r(1, 'y'), w(1, 'y', 'y')),
     P('selfu_rmw_x', ('selfu', 1, ''), r(1, 'x'), w(1, 'x', 'x')),
     P('fu_nowait_rmw_x', ('getfu', 1, 'nowait'), r(1, 'x'), w(1, 'x', 'x')),
@@ -50,7 +50,7 @@ LOCKERS = [
     P('fu_rmw_f', ('getfu', 1, ''), r(1, 'f'), w(1, 'f', 'f')),
     P('ser_rmw_x', r(1, 'x'), w(1, 'x', 'x'), serializable=True),
     P('ser_ry_wx', r(1, 'y'), w(1, 'x'), serializable=True),
-    P('ser_r_load_r', r(1, 'x'), ('load', 1), r(1, 'x'), serializable=True),
+    P('ser_r_refetch_r', r(1, 'x'), ('refetch', 1), r(1, 'x'), serializable=True),
     P('ser_q_rmw_y', ('selq', 'x'), r(1, 'y'), w(1, 'y', 'y'), serializable=True),
     P('imm_rmw_x', r(1, 'x'), w(1, 'x', 'x'), immediate=True),
 ]
@@ -73,7 +73,7 @@ BY_NAME = {p['name']: p for p in PROGRAMS}
 assert len(BY_NAME) == len(PROGRAMS)
 TRIPLE_LOCKERS = ['fu_rmw_x', 'selfu_nowait_rmw_s', 'ser_rmw_x', 'ry_then_fu_wx']
 TRIPLE_WRITERS = ['rmw_x', 'blind_x', 'nonopt_rmw_x', 'del_1']
-XCHECK = [('fu_rmw_x', 'rmw_x'), ('ser_ry_wx', 'rmw_y'), ('fu_r_load_r', 'blind_x')]
+XCHECK = [('fu_rmw_x', 'rmw_x'), ('ser_ry_wx', 'rmw_y'), ('fu_r_refetch_r', 'blind_x')]
 
 def work_items(ctx):
     ln = [p['name'] for p in LOCKERS]; wn = [p['name'] for p in WRITERS]
@@ -264,7 +264,7 @@ def pg_transactions(ctx):
         res, log, notes = L.run_on_pg(db, pool, prog)
         name = prog['name']
         if res[0] != 'ok':
-            ctx.violation('pg-transactions|session-failed|%s' % name, dict(program=prog, error=res[1]), 'PostgreSQL model run failed: %s' % res[1]); continue
+            ctx.violation('pg-transactions|session-failed|%s' % res[1].split(':')[0], dict(program=prog, error=res[1]), 'PostgreSQL model run failed: %s' % res[1]); continue
         ctx.count('pg_sessions')
         stmts = [(k, s, ac) for k, s, a, ac in log]
         case = dict(program=prog, log=[(k, (s or '')[:120], ac) for k, s, ac in stmts])
